@@ -330,7 +330,7 @@ func (w *World) resolveResult(v ssa.Value) string {
 		return w.expr(v)
 	}
 	h := staticCallee(call)
-	if h == nil || h.Blocks == nil || !strings.HasPrefix(pkgPathOf(h), modPath) {
+	if h == nil || h.Blocks == nil || !summarisable(h) {
 		return w.expr(v)
 	}
 	args := call.Common().Args
@@ -1330,7 +1330,7 @@ func (ge *guardEnv) passEdges(f *ssa.Function, g Guard, depth int) map[Edge]bool
 				okE := g.Match(ge.w, f, sub)
 				if !okE && depth > 0 {
 					if c := valueCall(e); c != nil {
-						if h := staticCallee(c); h != nil && h.Blocks != nil && strings.HasPrefix(pkgPathOf(h), modPath) {
+						if h := staticCallee(c); h != nil && h.Blocks != nil && summarisable(h) {
 							okE = ge.ensuresAt(c, h, g, depth-1)
 						}
 					}
@@ -1349,7 +1349,7 @@ func (ge *guardEnv) passEdges(f *ssa.Function, g Guard, depth int) map[Edge]bool
 		if depth > 0 && (ea.A.Kind == "true" || ea.A.Kind == "false") {
 			if ex, ok := stripConv(ea.A.V).(*ssa.Extract); ok {
 				if c, ok := ex.Tuple.(*ssa.Call); ok {
-					if h := staticCallee(c); h != nil && h.Blocks != nil && strings.HasPrefix(pkgPathOf(h), modPath) {
+					if h := staticCallee(c); h != nil && h.Blocks != nil && summarisable(h) {
 						res := h.Signature.Results()
 						if ex.Index < res.Len()-1 || (ex.Index == res.Len()-1 && ea.A.Kind == "false") {
 							if bt, ok := res.At(ex.Index).Type().Underlying().(*types.Basic); ok && bt.Kind() == types.Bool {
@@ -1367,7 +1367,7 @@ func (ge *guardEnv) passEdges(f *ssa.Function, g Guard, depth int) map[Edge]bool
 		// can return false does
 		if depth > 0 && ea.A.Kind == "false" {
 			if c := atomCall(ea.A); c != nil {
-				if h := staticCallee(c); h != nil && h.Blocks != nil && strings.HasPrefix(pkgPathOf(h), modPath) && isPredicate(h) {
+				if h := staticCallee(c); h != nil && h.Blocks != nil && summarisable(h) && isPredicate(h) {
 					if ge.predicateEnsures(c, h, g, false, depth-1) {
 						edges[ea.E] = true
 						continue
@@ -1377,7 +1377,7 @@ func (ge *guardEnv) passEdges(f *ssa.Function, g Guard, depth int) map[Edge]bool
 		}
 		if depth > 0 && (ea.A.Kind == "nil" || ea.A.Kind == "true") {
 			if c := atomCall(ea.A); c != nil {
-				if h := staticCallee(c); h != nil && h.Blocks != nil && strings.HasPrefix(pkgPathOf(h), modPath) {
+				if h := staticCallee(c); h != nil && h.Blocks != nil && summarisable(h) {
 					if ge.ensuresAt(c, h, g, depth-1) {
 						edges[ea.E] = true
 					}
@@ -1459,7 +1459,7 @@ func (ge *guardEnv) guardedLocalX1(f *ssa.Function, target ssa.Instruction, g Gu
 				return false
 			}
 			h := staticCallee(c)
-			if h == nil || h.Blocks == nil || !strings.HasPrefix(pkgPathOf(h), modPath) || hasSuccessIndicator(h) {
+			if h == nil || h.Blocks == nil || !summarisable(h) || hasSuccessIndicator(h) {
 				return false
 			}
 			return ge.ensuresAt(c, h, g, depth-1)
@@ -1534,7 +1534,7 @@ func (ge *guardEnv) predicateEnsuresIdx(call ssa.CallInstruction, h *ssa.Functio
 			return true
 		}
 		if c := valueCall(v); c != nil && depth > 0 {
-			if h2 := staticCallee(c); h2 != nil && h2.Blocks != nil && h2 != h && strings.HasPrefix(pkgPathOf(h2), modPath) && isPredicate(h2) {
+			if h2 := staticCallee(c); h2 != nil && h2.Blocks != nil && h2 != h && summarisable(h2) && isPredicate(h2) {
 				if ge.predicateEnsures(c, h2, g, want, depth-1) {
 					return true
 				}
@@ -2261,4 +2261,20 @@ func loopBlocks(h *ssa.BasicBlock) map[*ssa.BasicBlock]bool {
 		}
 	}
 	return body
+}
+
+// summarisable: callee summaries (ensures / predicate summaries) are computed for hand-written in-module
+// functions only: generated protobuf code (package proto/..., or *.pb.go) establishes no guard of interest
+// and its marshalling functions are large enough to dominate the run time.
+func summarisable(h *ssa.Function) bool {
+	if h == nil || !strings.HasPrefix(pkgPathOf(h), modPath) {
+		return false
+	}
+	if strings.HasPrefix(relPkg(h), "proto/") {
+		return false
+	}
+	if w := worldFor(h); w != nil && h.Pos().IsValid() && strings.HasSuffix(w.Fset.Position(h.Pos()).Filename, ".pb.go") {
+		return false
+	}
+	return true
 }
